@@ -9,9 +9,13 @@ import (
 	"encoding/json"
 	"fmt"
 	"reflect"
+	"sort"
 	"time"
 
 	"github.com/getlantern/zenodb/core"
+	"github.com/getlantern/zenodb/encoding"
+
+	"zvh/gen"
 
 	"zvh/dbk"
 	"zvh/hk"
@@ -84,6 +88,55 @@ func genScript(r *hk.Rng, exotic bool) *script {
 	return sc
 }
 
+// specView evaluates the Lean raw-point spec and renders it like semView.
+func specView(ctx *hk.RunCtx, s *dbk.Schema, mpoints []interface{}, live int64, dup bool) (map[string]string, error) {
+	sout, err := ctx.Model.Call(map[string]interface{}{"engine": "spec", "cfg": s.CfgJSON(), "points": mpoints, "dup": dup})
+	if err != nil {
+		return nil, err
+	}
+	var sp struct {
+		Rows []struct {
+			Key    map[string]interface{} `json:"key"`
+			Period string                 `json:"period"`
+			Cells  [][]interface{}        `json:"cells"`
+		} `json:"rows"`
+		Now string `json:"now"`
+	}
+	if err := json.Unmarshal(sout, &sp); err != nil {
+		return nil, err
+	}
+	vSpec := map[string]string{}
+	for _, r := range sp.Rows {
+		var period int64
+		fmt.Sscan(r.Period, &period)
+		if period <= live {
+			continue
+		}
+		ks := modelKeyString(r.Key)
+		for fi, cells := range r.Cells {
+			if isUnset(cells) {
+				continue
+			}
+			b, _ := json.Marshal(cells)
+			vSpec[fmt.Sprintf("%s|%d|%d", ks, period, fi)] = string(b)
+		}
+	}
+	return vSpec, nil
+}
+
+func modelKeyString(m map[string]interface{}) string {
+	ks := make([]string, 0, len(m))
+	for k := range m {
+		ks = append(ks, k)
+	}
+	sort.Strings(ks)
+	out := ""
+	for _, k := range ks {
+		out += fmt.Sprintf("%s=%s;", k, m[k])
+	}
+	return out
+}
+
 func sameJSON(a interface{}, b interface{}) bool {
 	ab, _ := json.Marshal(a)
 	bb, _ := json.Marshal(b)
@@ -91,6 +144,70 @@ func sameJSON(a interface{}, b interface{}) bool {
 	json.Unmarshal(ab, &x)
 	json.Unmarshal(bb, &y)
 	return reflect.DeepEqual(x, y)
+}
+
+// isUnset reports whether a decoded period state has no cell set.
+func isUnset(cells []interface{}) bool {
+	for _, c := range cells {
+		m := c.(map[string]interface{})
+		for _, v := range m {
+			if v != nil {
+				return false
+			}
+		}
+	}
+	return true
+}
+
+// semView is the semantic content of a raw scan: (key, period end, field) -> state, for the
+// periods ending after liveAfter (unix ns) whose state has at least one cell set.
+func semView(fields []dbk.FieldDef, rows []dbk.RawRow, res time.Duration, liveAfter int64) map[string]string {
+	out := map[string]string{}
+	for _, r := range rows {
+		ks := dbk.KeyString(r.Key)
+		for i, f := range fields {
+			if i >= len(r.Cols) {
+				continue
+			}
+			addSeq(out, ks, i, f.Node, r.Cols[i], res, liveAfter)
+		}
+	}
+	return out
+}
+
+func addSeq(out map[string]string, ks string, fi int, n *gen.Node, s encoding.Sequence, res time.Duration, liveAfter int64) {
+	if len(s) == 0 {
+		return
+	}
+	w := n.Build().EncodedWidth()
+	for p := 0; p < s.NumPeriods(w); p++ {
+		end := s.UntilInt() - int64(p)*int64(res)
+		if end <= liveAfter {
+			continue
+		}
+		cells, _ := n.DecodeCells(s[8+p*w : 8+(p+1)*w])
+		if isUnset(cells) {
+			continue
+		}
+		b, _ := json.Marshal(cells)
+		out[fmt.Sprintf("%s|%d|%d", ks, end, fi)] = string(b)
+	}
+}
+
+func diffViews(a, b map[string]string) string {
+	for k, v := range a {
+		if w, ok := b[k]; !ok {
+			return fmt.Sprintf("%s: %s vs <absent>", k, v)
+		} else if w != v {
+			return fmt.Sprintf("%s: %s vs %s", k, v, w)
+		}
+	}
+	for k, w := range b {
+		if _, ok := a[k]; !ok {
+			return fmt.Sprintf("%s: <absent> vs %s", k, w)
+		}
+	}
+	return ""
 }
 
 func (Engine) Run(ctx *hk.RunCtx) error {
@@ -139,6 +256,8 @@ func oneCase(ctx *hk.RunCtx, r *hk.Rng, idx uint64) error {
 
 	mops := []interface{}{}
 	implOuts := []interface{}{}
+	var propFail []string
+	mpoints := []interface{}{}
 	nIngest, nFlush := 0, 0
 	for _, o := range sc.Ops {
 		switch o.Kind {
@@ -148,14 +267,31 @@ func oneCase(ctx *hk.RunCtx, r *hk.Rng, idx uint64) error {
 				continue
 			}
 			nIngest++
-			mops = append(mops, map[string]interface{}{"op": "ingest", "p": o.P.ModelJSON(q.Where)})
+			mp := o.P.ModelJSON(q.Where)
+			mpoints = append(mpoints, mp)
+			mops = append(mops, map[string]interface{}{"op": "ingest", "p": mp})
 			implOuts = append(implOuts, nil)
 		case "flush":
 			if !db.Quiesce(10 * time.Second) {
 				ctx.Res.Inconclusive++
 				return nil
 			}
+			// C03 oracle (implementation only): a flush does not change what a
+			// memstore-inclusive scan sees on live periods, and right after it a
+			// disk-only scan sees the same
+			live := db.VerifNow() - int64(s.Retention)
+			before, _ := db.Scan(s.Table, nil, true)
+			vBefore := semView(all, before, s.Res, live)
 			db.VerifForceFlush(s.Table)
+			after, _ := db.Scan(s.Table, nil, true)
+			disk, _ := db.Scan(s.Table, nil, false)
+			vAfter := semView(all, after, s.Res, live)
+			vDisk := semView(all, disk, s.Res, live)
+			if d := diffViews(vBefore, vAfter); d != "" {
+				propFail = append(propFail, fmt.Sprintf("flush %d changed the memstore-inclusive view: %s", nFlush, d))
+			} else if d := diffViews(vAfter, vDisk); d != "" {
+				propFail = append(propFail, fmt.Sprintf("after flush %d the disk-only view differs from the memstore-inclusive one: %s", nFlush, d))
+			}
 			nFlush++
 			mops = append(mops, map[string]interface{}{"op": "flush", "sorted": sc.Sorted})
 			implOuts = append(implOuts, nil)
@@ -188,6 +324,33 @@ func oneCase(ctx *hk.RunCtx, r *hk.Rng, idx uint64) error {
 	}
 	req := map[string]interface{}{"engine": "store", "cfg": s.CfgJSON(), "ops": mops}
 	ctx.Res.Count(req, nIngest >= 2 && nFlush >= 1)
+
+	// C01 oracle: the final memstore-inclusive view equals the raw-point spec on live periods
+	if db.Quiesce(10 * time.Second) {
+		final, _ := db.Scan(s.Table, nil, true)
+		live := db.VerifNow() - int64(s.Retention)
+		vFinal := semView(all, final, s.Res, live)
+		vSpec, err := specView(ctx, s, mpoints, live, false)
+		if err != nil {
+			return err
+		}
+		if d := diffViews(vFinal, vSpec); d != "" {
+			// known finding C01-array-double: the view equals the spec in which every
+			// extra array element is counted twice; anything else is a violation
+			vDup, err := specView(ctx, s, mpoints, live, true)
+			if err != nil {
+				return err
+			}
+			if diffViews(vFinal, vDup) == "" {
+				ctx.Res.KnownFinding("C01-array-double")
+			} else {
+				propFail = append(propFail, "final view differs from the raw-point spec (impl vs spec): "+d)
+			}
+		}
+	}
+	for _, pf := range propFail {
+		ctx.Res.Disagree(hk.Disagreement{Kind: "property", Case: req, Detail: pf, PropertyFails: true, Index: idx})
+	}
 	ctx.Res.Hit(fmt.Sprintf("flushes:%d", min(nFlush, 5)))
 	if exotic {
 		ctx.Res.Hit("exotic-values")
